@@ -2,6 +2,9 @@
 //@ anchor: src/debugger/debugee/tracer.rs :: impl Tracer / fn apply_new_status
 //@ fragment: REWIND :: src/debugger/debugee/tracer.rs :: impl Tracer / fn apply_new_status :: `^code::TRAP_BRKPT | code::SI_KERNEL => { let current_pc = {` .. `^};`
 //@ fragment: FINDBP :: src/debugger/debugee/tracer.rs :: impl Tracer / fn apply_new_status :: `let mb_hit_brkpt = tcx` .. `;`
+//@ fragment: REPORT :: src/debugger/debugee/tracer.rs :: impl Tracer / fn apply_new_status :: `^return Ok(None); } }` .. `^} code::TRAP_HWBKPT =>`
+//@ harness: name=c01_report prop=C01 unit=C01.report mode=complete fn="Tracer::apply_new_status (TRAP_BRKPT: stop bookkeeping and reported reason)" timeout=600
+//@ assume: C01.report: `self.tracee_ctl.tracee_ensure_mut(pid).set_stop(..)` and `self.group_stop_interrupt(tcx, pid)` are replaced by recorders with the same call shape (std HashMap / ptrace behind them)
 //@ harness: name=c01_rewind prop=C01 unit=C01.rewind mode=complete fn="Tracer::apply_new_status (TRAP_BRKPT: pc rewind statements)" timeout=600
 //@ assume: C01.rewind: nix::sys::ptrace::getregs/setregs replaced by a one-thread register-file model; `self.tracee_ctl.tracee_ensure(pid)` replaced by a recorder returning the trapped thread (std HashMap lookup)
 //@ notcovered: that every arrival produces exactly one SIGTRAP, event ordering across threads, the continue loop and step-over re-arming (disable -> single step -> enable) as a whole: relations between the debuggee's execution trace and waitpid events are outside this family's reach
@@ -56,4 +59,45 @@ fn c01_rewind() {
             assert!(unsafe { SETS } == 1, "C01.rewind.E3 exactly one register write");
         }
     }
+}
+
+
+// ---- C01.report: what is reported for a breakpoint trap -------------------------------------------------------
+use crate::debugger::debugee::tracee::StopType;
+struct TraceeRec2 { stop: Option<StopType> }
+impl TraceeRec2 { fn set_stop(&mut self, t: StopType) { self.stop = Some(t); } }
+struct CtlRec2 { tracee: TraceeRec2, asked_pid: i32 }
+impl CtlRec2 { fn tracee_ensure_mut(&mut self, pid: Pid) -> &mut TraceeRec2 { self.asked_pid = pid.as_raw(); &mut self.tracee } }
+struct TracerRep { tracee_ctl: CtlRec2, group_stops: u32, group_stop_initiator: i32 }
+impl TracerRep {
+    fn group_stop_interrupt(&mut self, _tcx: (), initiator_pid: Pid) -> Result<(), Error> {
+        self.group_stops += 1;
+        self.group_stop_initiator = initiator_pid.as_raw();
+        Ok(())
+    }
+    fn report(&mut self, tcx: (), pid: Pid, current_pc: RelocatedAddress, brkpt: &Breakpoint) -> Result<Option<StopReason>, Error> {
+        /*@@FRAGMENT:REPORT*/
+    }
+}
+
+#[kani::proof]
+fn c01_report() {
+    let p: i32 = kani::any();       // the thread that trapped
+    let q: i32 = kani::any();       // the thread recorded in the breakpoint (may differ: breakpoints are shared by all threads)
+    let a: usize = kani::any();
+    let pc = RelocatedAddress::from(a);
+    let brkpt = Breakpoint::new_linker_map(pc, Pid::from_raw(q));
+    let mut t = TracerRep { tracee_ctl: CtlRec2 { tracee: TraceeRec2 { stop: None }, asked_pid: 0 }, group_stops: 0, group_stop_initiator: 0 };
+    let r = t.report((), Pid::from_raw(p), pc, &brkpt);
+    match r {
+        Ok(Some(StopReason::Breakpoint(rp, rpc))) => {
+            assert!(rp.as_raw() == p, "C01.report.E1 the stop is attributed to the thread that executed the trap");
+            assert!(rpc == pc, "C01.report.E2 the stop is reported at the rewound program counter (the breakpoint address)");
+        }
+        Ok(_) => panic!("C01.report.E3 an ordinary breakpoint trap is reported as a breakpoint stop"),
+        Err(e) => { core::mem::forget(e); panic!("C01.report.E3 an ordinary breakpoint trap is reported as a breakpoint stop"); }
+    }
+    assert!(t.tracee_ctl.asked_pid == p && t.tracee_ctl.tracee.stop == Some(StopType::Interrupt), "C01.report.E4 the trapping thread is marked stopped");
+    assert!(t.group_stops == 1 && t.group_stop_initiator == p, "C01.report.E5 the other threads are stopped once, on behalf of the trapping thread");
+    core::mem::forget(brkpt);
 }
